@@ -12,8 +12,39 @@ WRAPPERS = {"m4ri_mm_malloc", "m4ri_mm_calloc", "m4ri_mm_malloc_aligned", "m4ri_
 RAW = re.compile(r"\b(malloc|calloc|realloc|posix_memalign|_mm_malloc|aligned_alloc|strdup)\s*\(")
 
 
+def _functions(blank):
+    """[(name, body_start, body_end)] of all function definitions in a blanked translation unit"""
+    from vplib.loopins import _match
+    res = []
+    depth = 0
+    i, n = 0, len(blank)
+    # positions at brace depth 0
+    depth_at = []
+    d = 0
+    for ch in blank:
+        depth_at.append(d)
+        if ch == "{":
+            d += 1
+        elif ch == "}":
+            d -= 1
+    for m in re.finditer(r"\b([A-Za-z_]\w*)\s*\(", blank):
+        if depth_at[m.start()] != 0:
+            continue
+        close = _match(blank, m.end() - 1, "(", ")")
+        if close < 0:
+            continue
+        k = close + 1
+        while k < n and blank[k] in " \t\r\n":
+            k += 1
+        if k < n and blank[k] == "{":
+            end = _match(blank, k, "{", "}")
+            if end > 0:
+                res.append((m.group(1), k, end))
+    return res
+
+
 def scan_sites():
-    """every raw allocation call in m4ri/*.c,*.h with the enclosing function; returns list of dicts"""
+    """every raw allocation call in m4ri/*.c,*.h with the enclosing function"""
     from vplib.loopins import _blank
     sites = []
     src = os.path.join(REPO, "m4ri")
@@ -22,26 +53,15 @@ def scan_sites():
             continue
         txt = open(os.path.join(src, fn), errors="replace").read()
         b = _blank(txt)
+        # drop preprocessor lines (e.g. "#define HAVE_MALLOC ...")
+        b = re.sub(r"^[ \t]*#[^\n]*", lambda m: " " * len(m.group(0)), b, flags=re.M)
+        funcs = _functions(b)
         for m in RAW.finditer(b):
             line = b.count("\n", 0, m.start()) + 1
-            # enclosing function: last "name(" at depth 0 before this point followed by "{"
-            head = b[:m.start()]
-            depth = head.count("{") - head.count("}")
             f = "?"
-            if depth > 0:
-                # walk back to the opening brace at depth 0
-                d, k = 0, len(head) - 1
-                while k >= 0:
-                    if head[k] == "}":
-                        d += 1
-                    elif head[k] == "{":
-                        if d == 0 and head[:k].count("{") - head[:k].count("}") == 0:
-                            break
-                        d -= 1 if d else 0
-                    k -= 1
-                mm = list(re.finditer(r"\b([A-Za-z_]\w*)\s*\([^;{}]*\)\s*$", head[:k]))
-                if mm:
-                    f = mm[-1].group(1)
+            for name, st, en in funcs:
+                if st < m.start() < en:
+                    f = name
             sites.append({"file": fn, "line": line, "call": m.group(1), "function": f})
     return sites
 
